@@ -191,6 +191,11 @@ func judgeAllN(c *core.Ctx, cfg string, header []record, recs []record, chunk, p
 	if len(recs) == 0 {
 		return nil
 	}
+	if len(header) == 0 {
+		// TLC reports a violation in the initial state without a state number:
+		// keep judged records off the first line
+		header = []record{{m: map[string]any{"kind": "corpus", "id": 0, "typ": "none", "docs": []any{}}}}
+	}
 	type job struct{ lo, hi int }
 	var jobs []job
 	for lo := 0; lo < len(recs); lo += chunk {
@@ -250,9 +255,9 @@ func run(c *core.Ctx) error {
 
 	// 1. the model decides (concurrently with the Go side)
 	type mc struct{ cfg string; workers int }
-	models := []mc{{"NumericMC_pair_w7.cfg", 2}, {"NumericMC_split_b4l3.cfg", 2}, {"NumericMC_pair_w6.cfg", 1}, {"NumericMC_split_b2l4.cfg", 1}}
+	models := []mc{{"NumericMC_pair_w7.cfg", 2}, {"NumericMC_split_b4l3g2.cfg", 2}, {"NumericMC_pair_w6.cfg", 1}, {"NumericMC_split_b2l4.cfg", 1}}
 	if c.Thorough() {
-		models = append(models, mc{"NumericMC_split_b4l4.cfg", 4}, mc{"NumericMC_split_b16l2.cfg", 4}, mc{"NumericMC_pair_w8.cfg", 4})
+		models = append(models, mc{"NumericMC_split_b4l3.cfg", 2}, mc{"NumericMC_split_b4l4.cfg", 4}, mc{"NumericMC_split_b16l2.cfg", 4}, mc{"NumericMC_pair_w8.cfg", 4})
 	}
 	if os.Getenv("VERIF_C07_DEV_NOMODELS") != "" { // development aid for mutant runs; makes the run inconclusive
 		models = nil
@@ -346,8 +351,7 @@ func run(c *core.Ctx) error {
 	}
 	c.Logf("records: %d corpora, %d query, %d open-end date query, %d sort", len(e2e.header), len(e2e.queries), len(e2e.openEnd), len(e2e.sorts))
 
-	c.Extra("queries_not_executed_walk_too_long", e2e.skipped)
-	c.Extra("queries_with_hopeless_walk", len(e2e.blowups))
+	c.Extra("risky_queries_run_in_child_process", len(e2e.blowups))
 
 	// 4. TLC judges
 	par := 5
@@ -391,85 +395,86 @@ func run(c *core.Ctx) error {
 	return berr
 }
 
-// checkBlowups handles the queries whose term-range walk is hopelessly long
-// ("terminates" clause). TLC judges the real splitter output with
-// SplitEnumBounded; the real query runs in a child process with a deadline.
-// Only both together (unbounded by the judge, no answer from the real code)
-// are a violation.
+// checkBlowups handles the queries whose term ranges are far apart as byte
+// strings ("terminates" clause). Before /repo bec9de5 termRange.Enumerate
+// walked such ranges byte string by byte string and never answered, so they
+// are executed in a child process with a deadline (Go cannot cancel a search
+// in-process). The judge's enumeration model (SplitEnumBounded on the real
+// splitter output) says every walk is short; a query that gives no answer
+// contradicts it on the real code: violation. An answer is judged like that
+// of any other query.
 func checkBlowups(c *core.Ctx, e2e *e2eRecords) error {
-	limit := c.Pick(2, 6)
+	limit := c.Pick(10, 40)
 	// canonical cases were appended last: take from the end
 	cases := e2e.blowups
 	if len(cases) > limit {
+		c.Extra("risky_queries_not_executed", len(cases)-limit)
 		cases = cases[len(cases)-limit:]
 	}
 	var wg sync.WaitGroup
 	errs := make([]error, len(cases))
+	recs := make([]*record, len(cases))
+	sem := make(chan struct{}, 4)
 	for i, bc := range cases {
 		wg.Add(1)
 		go func(i int, bc blowupCase) {
 			defer wg.Done()
-			errs[i] = checkBlowup(c, bc)
+			sem <- struct{}{}
+			defer func() { <-sem }()
+			recs[i], errs[i] = checkBlowup(c, bc)
 		}(i, bc)
 	}
 	wg.Wait()
-	for _, e := range errs {
+	byCorpus := map[int][]record{}
+	hdr := map[int]record{}
+	for i, e := range errs {
 		if e != nil {
 			return e
 		}
+		if recs[i] != nil {
+			id := cases[i].cs.Corpus.ID
+			byCorpus[id] = append(byCorpus[id], *recs[i])
+			hdr[id] = cases[i].cs.Corpus.record()
+		}
 	}
-	return nil
-}
-
-func checkBlowup(c *core.Ctx, bc blowupCase) error {
-	{
-		rec, err := splitRecord(bc.mn, bc.mx)
-		if err != nil {
+	for id, rs := range byCorpus {
+		if err := judgeAll(c, "JudgeNumeric.cfg", []record{hdr[id]}, rs, 1000, 1); err != nil {
 			return err
-		}
-		// (a leading corpus record keeps the judged record off the initial state)
-		slots.acquire(1)
-		tf, err := c.ValidateTrace("JudgeNumeric", "JudgeNumeric_enum.cfg", []any{bc.cs.Corpus.record().m, rec.m})
-		slots.release(1)
-		c.Traces(1)
-		if err != nil {
-			return err
-		}
-		bad := ""
-		if tf != nil {
-			if tf.Line != 2 || tf.Invariant == "" {
-				return fmt.Errorf("judge JudgeNumeric_enum.cfg: unexpected rejection %+v", *tf)
-			}
-			bad = tf.Invariant
-		}
-		res, err := queryInChild(c, bc.cs, 12*time.Second)
-		c.Eval(1)
-		if err != nil {
-			return err
-		}
-		c.Logf("query with a %s-step term walk: judge=%q answered=%v after %.1fs", bc.walk, bad, res.answered, res.waited.Seconds())
-		switch {
-		case res.answered && res.errText != "":
-			c.Violation("c07/query/"+bc.cs.Corpus.Typ+"/error", res.errText, map[string]any{"case": bc.cs})
-		case res.answered:
-			// the real code coped: judge the answer like any other query
-			r := record{m: res.record, cs: bc.cs, class: "query/" + bc.cs.Corpus.Typ}
-			if err := judgeAll(c, "JudgeNumeric.cfg", []record{bc.cs.Corpus.record()}, []record{r}, 10, 1); err != nil {
-				return err
-			}
-		case bad != "":
-			q := bc.cs.Query
-			c.Violation("c07/range-enumeration-blowup",
-				fmt.Sprintf("%s range query on %s (min bits %#x, max bits %#x, flags %d/%d; integer bounds [%d,%d]) gives no answer within 12s: termRange.Enumerate has to walk %s byte strings (judge: %v)",
-					bc.cs.Corpus.Typ, q.Eng, q.Min, q.Max, q.IncMin, q.IncMax, bc.mn, bc.mx, bc.walk, bad),
-				map[string]any{"case": bc.cs, "split_record": rec.m})
-		default:
-			c.Inconclusive(fmt.Sprintf("query %v did not answer although the judge finds its term walk bounded", core.Canon(bc.cs.Query)))
 		}
 	}
 	return nil
 }
 
+const childDeadline = 20 * time.Second
+
+func checkBlowup(c *core.Ctx, bc blowupCase) (*record, error) {
+	res, err := queryInChild(c, bc.cs, childDeadline)
+	c.Eval(1)
+	if err != nil {
+		return nil, err
+	}
+	q := bc.cs.Query
+	switch {
+	case res.answered && res.errText != "":
+		c.Violation("c07/query/"+bc.cs.Corpus.Typ+"/error", res.errText, map[string]any{"case": bc.cs})
+	case res.answered:
+		c.Distinct(fmt.Sprintf("query/%d/%s/%v/%x/%d/%v/%x/%d/child", bc.cs.Corpus.ID, q.Eng, q.HasMin, q.Min, q.IncMin, q.HasMax, q.Max, q.IncMax))
+		class := "query/" + bc.cs.Corpus.Typ
+		if bc.cs.Corpus.Name == "date-edge" && (!q.HasMin || !q.HasMax) {
+			class = "query/date/open-end-cut"
+		}
+		return &record{m: res.record, cs: bc.cs, class: class}, nil
+	default:
+		c.Logf("query with byte distance %s between its term range ends: no answer after %.1fs", bc.walk, res.waited.Seconds())
+		c.Violation("c07/range-enumeration-blowup",
+			fmt.Sprintf("%s range query on %s (min bits %#x, max bits %#x, flags %d/%d; integer bounds [%d,%d]) gives no answer within %s although every emitted term range is short by the enumeration model (SplitEnumBounded); base-256 distance of the range ends: %s",
+				bc.cs.Corpus.Typ, q.Eng, q.Min, q.Max, q.IncMin, q.IncMax, bc.mn, bc.mx, childDeadline, bc.walk),
+			map[string]any{"case": bc.cs})
+	}
+	return nil, nil
+}
+
+// replay re-executes one saved case on the real code and has TLC judge it again.
 func replay(c *core.Ctx, path string) error {
 	b, err := os.ReadFile(path)
 	if err != nil {
@@ -484,10 +489,12 @@ func replay(c *core.Ctx, path string) error {
 		return err
 	}
 	cs := f.Replay.Case
+	c.SetRule("replay of one saved case")
 	var header, recs []record
 	switch cs.Kind {
 	case "split":
 		rec, err := splitRecord(cs.Min, cs.Max)
+		c.Eval(1)
 		if err != nil {
 			c.Violation("c07/split/terminates", err.Error(), map[string]any{"case": cs})
 			return nil
@@ -495,48 +502,48 @@ func replay(c *core.Ctx, path string) error {
 		recs = []record{rec}
 	case "float":
 		recs = []record{floatRecord(cs.A, cs.B)}
+		c.Eval(1)
 	case "prefix":
 		recs = []record{prefixRecord(cs.V, cs.Shift)}
-	case "query", "sort":
-		if cs.Corpus == nil {
-			return fmt.Errorf("replay file has no corpus")
+		c.Eval(1)
+	case "query":
+		if cs.Corpus == nil || cs.Query == nil {
+			return fmt.Errorf("replay file has no corpus/query")
 		}
-		idx, err := openIndex(cs.engine(), cs.Corpus)
+		mn, mx := queryIntBounds(cs.Corpus, *cs.Query)
+		rec, err := checkBlowup(c, blowupCase{cs: cs, mn: mn, mx: mx, walk: walkLength(mn, mx).String()})
+		if err != nil {
+			return err
+		}
+		if rec == nil {
+			return nil // verdict already given
+		}
+		header = []record{cs.Corpus.record()}
+		recs = []record{*rec}
+	case "sort":
+		if cs.Corpus == nil || cs.Sort == nil {
+			return fmt.Errorf("replay file has no corpus/sort")
+		}
+		idx, err := openIndex(cs.Sort.Eng, cs.Corpus)
 		if err != nil {
 			return err
 		}
 		defer idx.Close()
-		header = []record{cs.Corpus.record()}
-		var rec record
-		if cs.Kind == "query" {
-			rec, err = runQuery(idx, cs.Corpus, *cs.Query)
-		} else {
-			rec, err = runSort(idx, cs.Corpus, *cs.Sort)
-		}
+		rec, err := runSort(idx, cs.Corpus, *cs.Sort)
+		c.Eval(1)
 		if err != nil {
-			c.Violation("c07/"+cs.Kind+"/error", err.Error(), map[string]any{"case": cs})
+			c.Violation("c07/sort/"+cs.Corpus.Typ+"/error", err.Error(), map[string]any{"case": cs})
 			return nil
 		}
+		header = []record{cs.Corpus.record()}
 		recs = []record{rec}
 	default:
 		return fmt.Errorf("unknown replay kind %q", cs.Kind)
 	}
-	c.Eval(len(recs))
 	c.Sample(recs[0].m)
-	c.SetRule("replay of one saved case")
 	cfg := "JudgeNumeric.cfg"
 	if strings.HasSuffix(recs[0].class, "open-end-cut") {
 		cfg = "JudgeNumeric_query.cfg"
 	}
 	return judgeAll(c, cfg, header, recs, 10, 1)
-}
-
-func (cs caseSpec) engine() string {
-	if cs.Query != nil {
-		return cs.Query.Eng
-	}
-	if cs.Sort != nil {
-		return cs.Sort.Eng
-	}
-	return ""
 }
